@@ -20,6 +20,13 @@ Pairs == DocCells \X Pool
 PairSets == UNION {kSubset(k, Pairs) : k \in 0..MaxDocImages}
 DocOf(S) == [c \in {p[1] : p \in S} |-> {p[2] : p \in {q \in S : q[1] = c}}]
 
+\* source images in two variants whose binary arch sets differ (4 images)
+SrcPairSets == {{<<<<"S", "src">>, i>>, <<<<"C", "src">>, j>>, <<<<"S", a>>, k>>, <<<<"C", b>>, l>>} :
+                  i \in {x \in Pool : x.n \in {"i1a", "i2"}}, j \in {x \in Pool : x.n \in {"i1a", "i2"}},
+                  k \in {x \in Pool : x.n \in {"i1a2", "i2"}}, l \in {x \in Pool : x.n \in {"i1a2", "i1b"}},
+                  a \in {"x86_64", "i386"}, b \in {"x86_64", "i386"}}
+\* small per-arch documents for merging: a src image next to one binary arch of the same variant
+MergeSets == {{<<<<"S", "src">>, i>>, <<<<"S", a>>, k>>} : i \in Pool, k \in Pool, a \in {"x86_64", "i386"}}
 Key(c) == c[1] \o "/" \o c[2]
 CellsJson(cs) == [k \in {Key(c) : c \in DOMAIN cs} |->
                     {i.n : i \in cs[CHOOSE c \in DOMAIN cs : Key(c) = k]}]
@@ -32,11 +39,16 @@ VerStep == \E ver \in {100, 101} :
              /\ M!SetVersion(ver)
              /\ hist' = Append(hist, [op |-> "setversion", ver |-> ver, out |-> "ok"])
 DumpStep == M!Dump /\ hist' = Append(hist, [op |-> "dump", out |-> "ok"])
-LoadStep == \E S \in PairSets, ver \in {100, 101, 102} :
+LoadStep == \E S \in (IF Mode = "merge" THEN MergeSets ELSE PairSets \cup SrcPairSets), ver \in {100, 101, 102} :
              /\ M!Load(DocOf(S), ver)
              /\ hist' = Append(hist, [op |-> "load", ver |-> ver, doc |-> CellsJson(DocOf(S)), out |-> out'])
+MergeStep == \E S \in MergeSets, ver \in {100, 101, 102} :
+             /\ M!LoadInto(DocOf(S), ver)
+             /\ hist' = Append(hist, [op |-> "loadinto", ver |-> ver, doc |-> CellsJson(DocOf(S)), out |-> out'])
 Next == /\ Len(hist) < D
-        /\ IF Mode = "loads" /\ hist = <<>> THEN LoadStep ELSE (AddStep \/ VerStep \/ DumpStep)
+        /\ IF Mode \in {"loads", "merge"} /\ hist = <<>> THEN LoadStep
+           ELSE IF Mode = "merge" THEN (out = "ok" /\ MergeStep)
+           ELSE (AddStep \/ VerStep \/ DumpStep)
 
 Emit == PrintT("@@" \o ToJson([hist |-> hist, cells |-> CellsJson(cells), hdr |-> hdr, exempt |-> exempt]))
 EmitLast == Len(hist) < D \/ Emit          \* simulation mode: print full-depth behaviours only
